@@ -68,7 +68,9 @@ XBW::XBW(std::istream &input) {
       unmap[mapping[i]] = i;
     }
 
-  delete ((SequenceBuilderWaveletTree *)sbb);
+  // Deleting the sequence builder releases its references to sbb (which
+  // is then destroyed), am and wcc (both still shared with alpha)
+  delete ssb;
 
   // Free the temporary arrays
   delete[] alphaInt;
